@@ -64,7 +64,15 @@ Next ==
   /\ l <= Len(Tr) /\ l' = l + 1
   /\ (l < Len(Tr) \/ RejOut([done |-> Len(Tr)]))
   /\ LET x == Tr[l] IN
-     IF x.e = "Reset" THEN ulive' = {} /\ blive' = {} /\ poisoned' = FALSE
+     IF x.e = "EmuCall" THEN      \* uriEmulateCalloc / uriEmulateReallocarray called directly on a complete (recording) manager
+          /\ UNCHANGED <<ulive, blive, poisoned>>
+          /\ LET why == (IF x.ovf /\ ~(x.ret = 0 /\ x.en = ENOMEM /\ x.reqs = 0) THEN <<"uriEmulateCalloc: an overflowing product must be refused with ENOMEM before the manager is asked">> ELSE <<>>)
+                      \o (IF x.ovf /\ ~(x.ret2 = 0 /\ x.en2 = ENOMEM) THEN <<"uriEmulateReallocarray: an overflowing product must be refused with ENOMEM">> ELSE <<>>)
+                      \o (IF x.small /\ ~x.zeroprod /\ ~(x.ret = 1 /\ x.zeroOK) THEN <<"uriEmulateCalloc: no block, or a block that is not zeroed, for a small product">> ELSE <<>>)
+                      \o (IF x.small /\ ~x.zeroprod /\ ~(x.ret2 = 1 /\ x.keptOK) THEN <<"uriEmulateReallocarray: content not preserved for the same product">> ELSE <<>>)
+                      \o (IF x.leak # 0 \/ x.bad THEN <<"emulation helpers: blocks outstanding or a bad release">> ELSE <<>>)
+             IN why = <<>> \/ RejOut([line |-> l, fails |-> [i \in 1..Len(why) |-> [p |-> "C15", why |-> why[i]]], ev |-> x])
+     ELSE IF x.e = "Reset" THEN ulive' = {} /\ blive' = {} /\ poisoned' = FALSE
      ELSE IF poisoned THEN UNCHANGED <<ulive, blive, poisoned>>
      ELSE IF x.e = "MmEnd" THEN
           /\ UNCHANGED <<ulive, blive, poisoned>>
